@@ -48,7 +48,10 @@ class Files(staticfiles.BaseFiles[ASGIApp]):
                 value = v.decode("latin-1")
                 if_none_match = f"{if_none_match}, {value}" if if_none_match else value
             elif k == b"if-modified-since":
-                if_modified_since = v.decode("latin-1")
+                value = v.decode("latin-1")
+                if_modified_since = (
+                    f"{if_modified_since}, {value}" if if_modified_since else value
+                )
         filepath = self.ensure_absolute_path(scope["path"])
         stat_result, is_file = self.check_path_is_file(filepath)
         if is_file and stat_result:
@@ -82,7 +85,10 @@ class Pages(Files):
                 value = v.decode("latin-1")
                 if_none_match = f"{if_none_match}, {value}" if if_none_match else value
             elif k == b"if-modified-since":
-                if_modified_since = v.decode("latin-1")
+                value = v.decode("latin-1")
+                if_modified_since = (
+                    f"{if_modified_since}, {value}" if if_modified_since else value
+                )
         filepath = self.ensure_absolute_path(scope["path"])
         stat_result, is_file = self.check_path_is_file(filepath)
         # only the requested path itself can be a directory URL, not a candidate
